@@ -13,7 +13,7 @@ MANIFEST = {
 
 
 def run(ctx):
-    core.build_harness(["commit_sched"])
+    core.build_harness(["commit_sched", "oracle_gc"])
     _commit.model_check(ctx, faults=1)
     if not ctx.quick:
         _commit.model_check(ctx, faults=2, txns='{"t1", "t2", "t3", "t4"}')
@@ -21,6 +21,13 @@ def run(ctx):
     _commit.replay_schedules(ctx, "edge", faults=1)
     if not ctx.quick:
         _commit.replay_schedules(ctx, "sim4", faults=2, txns='{"t1", "t2", "t3", "t4"}', sim=3000, depth=40)
+    # the conflict window while the oracle's map is pruned, at the real GC interval (1024 publishes): the pruning step the
+    # model explores with GcInterval = 2, scaled up (hook-free)
+    s = core.run_driver("oracle_gc", [], timeout=900)
+    if s["cases"] == 0:
+        raise core.ToolError("oracle_gc ran no case")
+    ctx.add_driver(s)
+    _commit._report(ctx, s, "oracle_gc")
     ctx.cov["exhaustive"] = True
     ctx.cov["rule"] = "edge cover of the bounded Commit state graph + directed counterexamples of the pinned behaviour"
     ctx.assumptions += ["NoSpuriousConflict is claimed for fault-free executions only (DESIGN §7)",
